@@ -37,7 +37,8 @@ def rand_grid(rng, gtype, dim):
     if gtype == "cartesian":
         o = {"x_min": rng.choice([-300e3, 0, 100e3]), "z_min": rng.choice([0, 300e3, 600e3]), "n_cell_x": n(), "n_cell_z": n()}
         o["x_max"] = o["x_min"] + rng.choice([200e3, 500e3, 900e3]); o["z_max"] = rng.choice([1000e3])
-        if dim == 3:
+        if dim == 3 or rng.random() < 0.5:
+            # in a 2-D grid file the y entries (a 3-D file switched to 2-D by editing only `dim`) must be ignored
             o["y_min"] = rng.choice([-400e3, 0]); o["y_max"] = o["y_min"] + rng.choice([300e3, 800e3]); o["n_cell_y"] = n()
     elif gtype == "chunk":
         o = {"x_min": rng.choice([-30, 0, 150, 170]), "z_min": rng.choice([3471000, 5371000]), "z_max": 6371000, "n_cell_x": n(), "n_cell_z": n()}
@@ -47,6 +48,8 @@ def rand_grid(rng, gtype, dim):
         else:
             # a 2-D chunk grid file without y_min/y_max is rejected by gwb-grid (NaN <= NaN assertion): the tool demands them although unused
             o["y_min"] = 0; o["y_max"] = 0
+            if rng.random() < 0.5:
+                o["y_min"] = rng.choice([-20, 0, 30]); o["y_max"] = o["y_min"] + rng.choice([10, 30]); o["n_cell_y"] = n()
     elif gtype == "sphere":
         # n_cell_y is only read by a debug-only WBAssert (n_cell_x == n_cell_y); z_min = 0 is the full sphere
         ncx = rng.choice([1, 2, 3, 4])
